@@ -21,7 +21,7 @@ CHECKS = {
     "C12": eng(Q(4, 400), Q(16, 10000, timeout=3000), inproc=[1, 2],
                arkrun=[("proc1", ["verif"]), ("proc2", ["verif"]), ("proc3", ["verif"])]),
     "C13": eng(Q(2, 150), Q(8, 4000, timeout=3000), race=True),
-    "C14": eng(Q(8, 2400), Q(16, 25000, timeout=3000), api_calls=True),
+    "C14": eng(Q(8, 2400), Q(16, 25000, timeout=3000), api_calls=True, api_exempt=["Query0.GetRelation"]),
     "C15": eng(Q(8, 3000), Q(16, 40000, timeout=3000)),
     "C16": eng(Q(8, 2400), Q(16, 30000, timeout=3000)),
     "C17": eng(Q(8, 3000), Q(16, 30000, timeout=3000), fuzz=[("FuzzEntityBinary", 40), ("FuzzEntityJSON", 40)]),
